@@ -366,6 +366,36 @@ def _clip_params(draw, st, vals):
 reg(Op("clip", 1, in_cat("realnum"), _clip_params, lambda xp, a, p: xp.clip(a[0], p["lo"], p["hi"]), lambda v, p: np.clip(v[0], p["lo"], p["hi"]), "exact", ("elementwise", "scalar", "helper-array"), 2))
 
 
+def _clip0d_params(draw, st, vals):
+    # bounds given as 0-d lazy arrays (min / max of the operand itself) or as scalars: composing must stay lazy, values as NumPy's
+    which = draw(st.sampled_from(["both", "both", "lo", "hi"]))
+    return {"which": which, "lo": draw(st.sampled_from([-2, 0, 1])), "hi": draw(st.sampled_from([3, 5, 40])), "shrink": draw(st.booleans())}
+
+
+def _clip0d_cub(xp, a, p):
+    x = a[0]
+    one = xp.asarray(1, dtype=x.dtype, spec=x.spec)
+    lo = xp.min(x)
+    hi = xp.max(x)
+    if p["shrink"]:
+        lo, hi = xp.add(lo, one), xp.subtract(hi, one)
+        lo = xp.minimum(lo, hi)
+    return xp.clip(x, lo if p["which"] in ("both", "lo") else p["lo"], hi if p["which"] in ("both", "hi") else p["hi"])
+
+
+def _clip0d_ref(v, p):
+    x = v[0]
+    lo, hi = x.min(), x.max()
+    if p["shrink"]:
+        lo, hi = lo + 1, hi - 1
+        lo = min(lo, hi)
+    return np.clip(x, lo if p["which"] in ("both", "lo") else p["lo"], hi if p["which"] in ("both", "hi") else p["hi"])
+
+
+reg(Op("clip_bounds0d", 1, lambda a: dn(a) in ("int64", "float64") and a.size > 0 and np.isfinite(a).all(), _clip0d_params, _clip0d_cub, _clip0d_ref, "exact",
+       ("elementwise", "reduction", "helper-array"), 1))
+
+
 def _where_pred(c, a, b):
     return dn(c) == "bool" and can_promote(a, b) and bshape_ok(a, b) and bshape_ok(np.broadcast(a, b), c) if True else False
 
@@ -1153,6 +1183,33 @@ def _mb2_cub(xp, a, p):
 
 reg(Op("map_blocks2", 2, lambda a, b: a.shape == b.shape and dn(a) == dn(b) and dn(a) in ("int64", "float64"), _noparams,
        _mb2_cub, lambda v, p: v[0] * 2 + v[1], "exact", ("chunk", "multi"), 1))
+
+
+def _mbnp_fn(p, q):
+    return p * 3 + q
+
+
+def _mbnp_params(draw, st, vals):
+    return {"np_first": draw(st.booleans())}
+
+
+def _mbnp_cub(xp, a, p):
+    import cubed
+
+    x = a[0]
+    if any(nb != 1 for nb in x.numblocks):
+        x = x.rechunk(x.shape)  # a non-cubed argument becomes a one-chunk array; blocks are paired by index
+    n = make_data(list(x.shape), str(x.dtype), k=7)
+    return cubed.map_blocks(_mbnp_fn, n, x, dtype=x.dtype) if p["np_first"] else cubed.map_blocks(_mbnp_fn, x, n, dtype=x.dtype)
+
+
+def _mbnp_ref(v, p):
+    n = make_data(list(v[0].shape), dn(v[0]), k=7)
+    return n * 3 + v[0] if p["np_first"] else v[0] * 3 + n
+
+
+# map_blocks with a NumPy array among its arguments (coerced to a cubed array under the operands' spec)
+reg(Op("map_blocks_np", 1, lambda a: dn(a) in ("int64", "float64") and a.ndim >= 1 and 0 < a.size <= 64, _mbnp_params, _mbnp_cub, _mbnp_ref, "exact", ("chunk", "helper-array"), 1))
 
 
 def _ov_params(draw, st, vals):
